@@ -1,6 +1,7 @@
 """C11 - the returned Jacobian is the fit through the evaluations it names."""
 import math
 import numpy as np
+from hypothesis import strategies as st
 
 from .. import core
 from ..core import CaseResult, Profile
@@ -28,6 +29,11 @@ PROF = sc.make_prof(fams=["lin", "lin", "sinlin", "rosen"], opts=True, opts_list
 def run(case):
     res = CaseResult()
     o = sc.run_solve(case)
+    judge(case, o, res)
+    return res
+
+
+def judge(case, o, res):
     s = o.soln
     res.classes.append("route:" + cl.route(o))
     res.classes += case["tags"]
@@ -35,11 +41,11 @@ def run(case):
         res.count("exceptions")
     if s is None or s.flag == s.EXIT_INPUT_ERROR or s.jacobian is None or s.jacmin_eval_nums is None:
         res.count("no-jacobian")
-        return res
+        return
     groups = cl.point_groups(o)
     if groups is None:
         res.count("unlocatable")
-        return res
+        return
     names = [int(v) for v in np.asarray(s.jacmin_eval_nums).ravel()]
     n = case["n"]
     up = case["up"]
@@ -47,10 +53,10 @@ def run(case):
     if up.get("growing.ndirs_initial") is not None and (len(names) < case["npt"] or 0 in names):
         # while the set is still growing the unfilled slots are exported as evaluation number 0
         res.count("growing-phase-not-finished")      # the statement is about a fully initialised point set
-        return res
+        return
     if any((k < 1 or k > s.nx or k not in groups) for k in names) or not (n + 1 <= len(names) <= maxnpt) or len(set(names)) != len(names):
         res.fail("C11.names_valid", "jacmin_eval_nums=%r with nx=%r, npt in [%d,%d]" % (names, s.nx, n + 1, maxnpt))
-        return res
+        return
     J = np.asarray(s.jacobian, dtype=float)
     X = np.array([o.calls[groups[k][0]][0] for k in names])
     R = np.array([np.mean(np.array([o.calls[i][1] for i in groups[k]]), axis=0) for k in names])
@@ -58,7 +64,7 @@ def run(case):
         res.count("non-finite-or-shape")
         if J.shape != (R.shape[1], n):
             res.fail("C11.names_valid", "jacobian has shape %r, expected %r" % (J.shape, (R.shape[1], n)))
-        return res
+        return
     npt = len(names)
     S = 1 + o.nshifts
     maxR, maxX, normJ = float(np.max(np.abs(R))), float(np.max(np.abs(X))), float(np.linalg.norm(J, 2))
@@ -100,8 +106,38 @@ def run(case):
         if flag:
             res.classes.append(name)
     res.nontrivial = bool(o.nshifts or case["scaling"] or npt > n + 1 or restarts)
+    return
+
+
+ENUM_PROF = sc.make_prof(fams=["lin", "lin", "sinlin", "rosen"], opts=True, opts_list=[0, 1, 2, 2, 6, 10, 11], noise_flag=False, diag=0.0, zero_resid=0.0,
+                         maxfuns=[16, 24, 36, 50], bounds=["none", "box", "scaled"], print_progress=0.0, route_bias=0.0, rhoend_exps=[1, 1, 2])
+
+
+@st.composite
+def enum_cases(draw):
+    c = draw(sc.scenarios(ENUM_PROF))
+    if c["n"] >= 2 and draw(st.integers(0, 2)) == 0 and not c["up"].get("growing.ndirs_initial"):
+        # soft restarts that append several points: the budget can end between two of them, with a model fitted before the first
+        n = c["n"]
+        c["up"].update({"restarts.use_restarts": True, "restarts.increase_npt": True, "restarts.max_npt": (n + 1) * (n + 2) // 2,
+                        "restarts.increase_npt_amt": draw(st.sampled_from([1, 2, 3]))})
+        c["up"].pop("restarts.use_soft_restarts", None)
+        c["up"].pop("init.run_in_parallel", None)
+        if draw(st.booleans()):
+            c["up"]["restarts.soft.move_xk"] = False
+        c["tags"] = sorted(set([t for t in c["tags"] if not t.startswith("restarts:")] + ["restarts:soft", "increase_npt"]))
+    return c
+
+
+def run_enum(case):
+    """Budget enumeration: the scenario re-run with maxfun = 1..nf; the returned Jacobian judged wherever the budget ends."""
+    res = CaseResult()
+    nf, ref = sc.budget_enumeration(case, judge, res)
+    res.classes += case["tags"]
+    res.nontrivial = bool(nf > case["npt"] + 2)
     return res
 
 
-PROFILES = {"solve": Profile("solve", lambda: sc.scenarios(PROF), run, quick=4000, thorough=100000, timeout=120)}
+PROFILES = {"solve": Profile("solve", lambda: sc.scenarios(PROF), run, quick=4000, thorough=100000, timeout=120),
+            "budget-enum": Profile("budget-enum", enum_cases, run_enum, quick=120, thorough=4000, timeout=600)}
 KNOWN = {}
